@@ -78,6 +78,9 @@ impl<'a> Choices<'a> {
     pub fn pick<'b, T>(&mut self, xs: &'b [T]) -> &'b T {
         &xs[self.idx(xs.len())]
     }
+    pub fn pick_s<'b>(&mut self, xs: &[&'b str]) -> &'b str {
+        xs[self.idx(xs.len())]
+    }
     /// Index drawn with the given weights; raw 0 gives the first entry with non-zero weight.
     pub fn weighted(&mut self, ws: &[u32]) -> usize {
         let total: u32 = ws.iter().sum();
